@@ -47,8 +47,14 @@ func sbLeft(o *sbObs, left int) {
 	o.V = vt.Limbs(l)
 }
 
-func sbRun(tree ptNode, via string, draws int) sbLine {
-	out := sbLine{Tree: tree, Desc: tree.describe(), Via: via, Obs: []sbObs{}}
+func sbRun(tree ptNode, via string, draws int) (out sbLine) {
+	out = sbLine{Tree: tree, Desc: tree.describe(), Via: via, Obs: []sbObs{}}
+	defer func() {
+		// a panic of the schedule (e.g. "schedule is already started") is an observation, not a driver crash
+		if r := recover(); r != nil {
+			out.Err = fmt.Sprintf("panic: %v", r)
+		}
+	}()
 	s, err := tree.build(via)
 	if err != nil {
 		out.Err = err.Error()
